@@ -1,6 +1,11 @@
 //! High-performance metrics storage.
 
 mod storage;
+#[cfg(metrics_verif)]
+use metrics::__verif::sync::RwLock;
+#[cfg(metrics_verif)]
+use std::{hash::BuildHasherDefault, iter::repeat, sync::PoisonError};
+#[cfg(not(metrics_verif))]
 use std::{
     hash::BuildHasherDefault,
     iter::repeat,
